@@ -13,6 +13,9 @@ For one problem + parameter set:
         returned-result         point, value, trial count and accuracy of the returned Solution equal those of the reference
                                 (when k <= T)
         second-solve-no-trials  a second Solve() makes no further global Calculate call and returns the same result
+A run that ends by float collapse (the new point rounds onto an end of an interval narrower than 1e-12; legitimate) is not
+continued: it must have made exactly the trials of E up to the collapse, and every run that reaches that iteration index
+must collapse there too (stats['float_collapse_stops']).
 """
 import os
 import sys
@@ -61,14 +64,17 @@ def first_diff(a, b):
 def check_case(case):
     """case["compositions"]: list of lists of batch sizes"""
     vs = []
-    info = {"compositions": 0, "overshoot": 0}
+    info = {"compositions": 0, "overshoot": 0, "float_collapse": 0}
     base = {k: v for k, v in case.items() if k != "compositions"}
     comps = [list(c) for c in case["compositions"]]
     kmax = max([sum(c) for c in comps] + [0])
     cap = 4 * max(case["lim"], kmax, 16) + 64
 
+    longest = max(comps, key=sum) if comps else None
+
     def fail(clause, obs, comp=None):
-        c = dict(base, compositions=[comp] if comp is not None else [])
+        # a reference-stage failure is replayed with the longest composition (it fixes the length of the single-step run)
+        c = dict(base, compositions=[comp] if comp is not None else ([longest] if longest is not None else []))
         vs.append(oc.violation(PROP, c, clause, obs))
 
     try:
@@ -79,17 +85,28 @@ def check_case(case):
         R = result_tuple(sol_ref)
         rep = oc.Run(base, cap=cap)
         sol_rep = rep.solve()
-        if seq(rep) != S or result_tuple(sol_rep) != R:
+        if seq(rep) != S or result_tuple(sol_rep) != R or bool(rep.collapsed) != bool(ref.collapsed):
             fail("repeat-run", first_diff(seq(rep), S))
+        if ref.trouble():
+            fail("no-internal-error", ref.trouble())
+        if ref.collapsed:
+            # the reference itself ended by float collapse before its stop criterion: only determinism is claimed
+            info["float_collapse"] += 1
+            info["T"] = T
+            return vs, info
         K = max(T, kmax)
         ext = oc.Run(base, cap=cap)
         for _ in range(K):
-            ext.iterate(1)
+            if not ext.iterate(1):
+                break
         E = seq(ext)
-        if len(E) != K or E[:T] != S:
-            fail("single-steps-prefix", dict(first_diff(E[:T], S), steps=K, trials=len(E)))
-        if ref.printed_exception or ext.printed_exception:
-            fail("no-internal-error", {"printed_marker": True})
+        Kc = len(E)                      # Kc < K only if the single-step run ended by float collapse after Kc trials
+        if (Kc != K and not ext.collapsed) or E[:T] != S:
+            fail("single-steps-prefix", dict(first_diff(E[:T], S), steps=K, trials=Kc))
+        if ext.trouble():
+            fail("no-internal-error", ext.trouble())
+        if ext.collapsed:
+            info["float_collapse"] += 1
     except BaseException as e:                 # noqa
         fail("no-internal-error", {"raised": repr(e), "stage": "reference"})
         return vs, info
@@ -102,14 +119,20 @@ def check_case(case):
         try:
             run = oc.Run(base, cap=cap)
             for b in comp:
-                run.iterate(b)
+                if not run.iterate(b):
+                    break
             s1 = seq(run)
-            if s1 != E[:k]:
-                fail("batches-are-prefix", dict(first_diff(s1, E[:k]), k=k), comp)
+            kk = min(k, Kc)
+            if s1 != E[:kk] or bool(run.collapsed) != (k > Kc):
+                fail("batches-are-prefix", dict(first_diff(s1, E[:kk]), k=k, float_collapse=bool(run.collapsed),
+                                                expected_float_collapse=k > Kc), comp)
+                continue
+            if run.collapsed:              # legitimate end of this run: no further iterations are issued
+                info["float_collapse"] += 1
                 continue
             sol = run.solve()
             s2 = seq(run)
-            if s2 != E[:max(T, k)]:
+            if s2 != E[:max(T, k)] or run.collapsed:
                 fail("solve-after-batches", dict(first_diff(s2, E[:max(T, k)]), k=k, T=T), comp)
                 continue
             if k <= T and result_tuple(sol) != R:
@@ -119,8 +142,8 @@ def check_case(case):
             if len(run.glog()) != len(s2) or result_tuple(sol2) != r1:
                 fail("second-solve-no-trials", {"calls_before": len(s2), "calls_after": len(run.glog()),
                                                 "result_before": r1, "result_after": result_tuple(sol2)}, comp)
-            if run.printed_exception:
-                fail("no-internal-error", {"printed_marker": True}, comp)
+            if run.trouble():
+                fail("no-internal-error", run.trouble(), comp)
         except BaseException as e:             # noqa
             fail("no-internal-error", {"raised": repr(e)}, comp)
         if len(vs) > 10:
@@ -129,6 +152,11 @@ def check_case(case):
 
 
 def gen(r, tier):
+    if r.random() < 0.04:
+        case = oc.collapse_prone_case(r)
+        del case["batches"]
+        case["compositions"] = [[r.choice([1, 2, 5, 9, 40]) for _ in range(r.randint(1, 12))] for _ in range(8)]
+        return case
     case = oc.gen_case(r, lim=r.choice([1, 2, 3, 4, 5, 6, 8, 12, 17, 40, 80, 150]),
                        eps=r.choice([1.5, 1.0, 0.5, 0.5, 0.3, 0.2, 0.1, 0.05, 0.02, 0.01, 1e-3]))
     comps = []
@@ -147,7 +175,7 @@ def gen(r, tier):
 
 
 def run(tier, r):
-    ncases = 150 if tier == "quick" else 700
+    ncases = 330 if tier == "quick" else 1900
     vs, stats, samples, keys = [], {}, [], set()
     nontrivial = explored = 0
     for i in range(ncases):
@@ -158,6 +186,7 @@ def run(tier, r):
         oc.bump(stats, "problems")
         oc.bump(stats, "dim%d" % case["n"])
         oc.bump(stats, "overshooting_compositions", info.get("overshoot", 0))
+        oc.bump(stats, "float_collapse_stops", info.get("float_collapse", 0))
         oc.bump(stats, "exhaustive_problems", 1 if len(case["compositions"]) > 100 else 0)
         oc.bump(stats, "reference_trials_total", info.get("T", 0))
         base = oc.case_key({k: v for k, v in case.items() if k != "compositions"})
